@@ -9,7 +9,7 @@ type = oto | m2m | fd ; a token is `/`-separated, objects are natural-number ids
 oto:  N/<pairs>  NR/<r>/<s>/<kw>  Q/<pairs>  QR/<r>/<s>/<kw>  C/<r>/<s>
       S/<r>/<s>/<k>/<v>  D/<r>/<s>/<k>  U/<r>/<s>/<pairs>  UR/<r>/<s>/<r2>/<s2>/<kw>
       F/<r>/<s>/<k>/<d>  P/<r>/<s>/<k>/<d|->  I/<r>/<s>[/<k>:<v> = the pair the implementation popped]  L/<r>/<s>
-m2m:  N/<pairs>  NR/<r>/<s>  A/<r>/<s>/<k>/<v>  R/<r>/<s>/<k>/<v>  S/<r>/<s>/<k>/<vals>
+m2m:  [X/<probe ids> first]  N/<pairs>  NR/<r>/<s>  A/<r>/<s>/<k>/<v>  R/<r>/<s>/<k>/<v>  S/<r>/<s>/<k>/<vals>
       D/<r>/<s>/<k>  U/<r>/<s>/<pairs>  UR/<r>/<s>/<r2>/<s2>  P/<r>/<s>/<k>/<nk>
 fd:   B/<fpairs> first, then  Ms/<k>/<fv> Md/<k> Mi/<fpairs> Mu/<fpairs> Mf/<k>/<fv> Mp/<k> Mo Mc
       H  E/<fpairs>[/<route>]  U/<fpairs>  Y  K/<keys>/<fv>   (fv = h<n> | u<n>; Y = hash, then copy/deepcopy/pickle;
@@ -121,8 +121,18 @@ def showGrouped (d : Dict Nat (List Nat)) : String :=
 def pairsOf (d : Dict Nat (List Nat)) : List (Nat × Nat) :=
   (iteritems d).mergeSort lePair
 
-def dumpM2M (s : M2M Nat) : String :=
-  s!"F{showGrouped s.data}/P{showPairs (pairsOf s.data)}/I{showGrouped s.inv}/Q{showPairs (pairsOf s.inv)}"
+/-- the readers of one side on the probe keys: `len~keys~get(k),…~(k in m)…~m[k],…` (`X` = KeyError) -/
+def showReaders (probe : List Nat) (m : M2M Nat) : String :=
+  let gets := ",".intercalate (probe.map fun k => showNats (sortNats (m.get k)) ".")
+  let has := String.join (probe.map fun k => if m.contains k then "1" else "0")
+  let items := ",".intercalate (probe.map fun k => match m.getitem k with
+    | some vs => showNats (sortNats vs) "."
+    | none => "X")
+  s!"{m.len}~{showNats (sortNats m.keysList) "."}~{gets}~{has}~{items}"
+
+def dumpM2M (probe : List Nat) (s : M2M Nat) : String :=
+  s!"F{showGrouped s.data}/P{showPairs (pairsOf s.data)}/I{showGrouped s.inv}/Q{showPairs (pairsOf s.inv)}" ++
+  s!"/Z{showReaders probe s}/z{showReaders probe s.flip}"
 
 def m2mTok? (tok : String) : Option (M2MCmd Nat) :=
   match splitOnChar tok '/' with
@@ -161,7 +171,13 @@ def separated (st : HState Nat) : Bool :=
 /-- every m2m history is run on BOTH machines: the heap-level one (set objects with identities, `Heap.lean`)
     supplies the dump, `V1` says the by-value machine (`Model.lean`) holds exactly the same lists, `S1` that no set
     object is referenced from two places -/
-def runM2M (toks : List String) : Option (List String) :=
+def runM2M (toks0 : List String) : Option (List String) :=
+  -- an optional first token `X/<ids>`: the keys the readers are probed with
+  let (probe, toks) : List Nat × List String := match toks0 with
+    | t :: ts => match splitOnChar t '/' with
+      | ["X", ids] => ((natList? ids).getD [], ts)
+      | _ => ([], toks0)
+    | [] => ([], toks0)
   let rec go (regs : List (M2M Nat)) (hst : HState Nat) (toks : List String) (acc : List String) : Option (List String) :=
     match toks with
     | [] => some acc.reverse
@@ -169,7 +185,7 @@ def runM2M (toks : List String) : Option (List String) :=
       | none => none
       | some c => match m2mCmd regs c, hm2mCmd hst c with
         | some (regs', ret), some (hst', hret) =>
-          let byRef := "|".intercalate (showRet hret :: hst'.abs.map dumpM2M)
+          let byRef := "|".intercalate (showRet hret :: hst'.abs.map (dumpM2M probe))
           -- V1: the by-value machine holds EXACTLY the same dicts (order included) and returned the same
           -- (theorem `hm2m_refines`, self-updates included)
           let agree := decide (regs' = hst'.abs) && showRet ret == showRet hret
